@@ -176,6 +176,7 @@ EndOK(ev, specOK, metaOK) ==
   /\ (Has(ev, "disok") => ev.disok = ev.ok /\ ev.diserr = ev.err)
   /\ (Has(ev, "encok") => ev.encok = ev.ok)
   /\ (Has(ev, "nildst") => ev.nildst = ev.ok)
+  /\ (Has(ev, "logdst") => ev.logdst = ev.ok)          \* a DestinationLogger with no destination behind it
 
 TVEnd ==
   /\ Trace[l].ev = "end" /\ ~skip
